@@ -350,6 +350,8 @@ class Interp:
             return c.bstr(v.t)
         if isinstance(v, SymReal):
             return c.breal(v.t)
+        if isinstance(v, SymBV):
+            return c.bint(z3.BV2Int(v.t))
         if isinstance(v, SymSeq):
             return c.btup(v.t) if v.kind == "tuple" else c.blist(v.t)
         if isinstance(v, PyTuple):
@@ -415,6 +417,8 @@ class Interp:
         if isinstance(v, SymInt):
             return v.t != 0
         if isinstance(v, SymReal):
+            return v.t != 0
+        if isinstance(v, SymBV):
             return v.t != 0
         if isinstance(v, (PyTuple, PyList)):
             return len(v.items) != 0
@@ -729,6 +733,10 @@ class Interp:
                 return Conc(PYOPS[op](a.obj, b.obj))
             except Exception as e:  # noqa: BLE001
                 raise PyRaise(SymExc(type(e), (), origin=f"concrete {op}")) from None
+        if isinstance(a, SymBV) or isinstance(b, SymBV):
+            r = self.bv_binop(op, a, b)
+            if r is not None:
+                return r
         ia, ib = self.as_int(a), self.as_int(b)
         if ia is not None and ib is not None:
             r = self.int_binop(op, ia, ib)
@@ -789,9 +797,65 @@ class Interp:
                     return r
         return NotImplemented
 
+    def bv_binop(self, op, a, b):
+        """Bit-vector arithmetic for bitmaps of a stated width (non-negative Python ints < 2**W)."""
+        w = (a if isinstance(a, SymBV) else b).t.size()
+
+        def tobv(x):
+            if isinstance(x, SymBV):
+                return x.t
+            if isinstance(x, Conc) and isinstance(x.obj, int) and not isinstance(x.obj, bool):
+                if 0 <= x.obj < 2 ** w:
+                    return z3.BitVecVal(x.obj, w)
+                return None
+            if isinstance(x, Conc) and isinstance(x.obj, bool):
+                return z3.BitVecVal(int(x.obj), w)
+            return None
+        ta, tb = tobv(a), tobv(b)
+        if ta is None or tb is None:
+            return None
+        if op == "and":
+            return SymBV(ta & tb)
+        if op == "or":
+            return SymBV(ta | tb)
+        if op == "xor":
+            return SymBV(ta ^ tb)
+        if op == "rshift":
+            return SymBV(z3.LShR(ta, tb))
+        if op == "sub":
+            # Python ints do not wrap: the subtraction must stay non-negative (checked as a path fact)
+            if not self.decide(z3.UGE(ta, tb)):
+                raise Unsupported("bit-vector subtraction below zero (outside the modelled range)")
+            return SymBV(ta - tb)
+        if op == "add":
+            if not self.decide(z3.BVAddNoOverflow(ta, tb, False)):
+                raise Unsupported("bit-vector addition beyond the modelled width")
+            return SymBV(ta + tb)
+        if op == "lshift":
+            return None
+        if op == "mod":
+            if not self.decide(tb != 0):
+                raise PyRaise(SymExc(ZeroDivisionError, (), origin="bv mod"))
+            return SymBV(z3.URem(ta, tb))
+        if op == "floordiv":
+            if not self.decide(tb != 0):
+                raise PyRaise(SymExc(ZeroDivisionError, (), origin="bv div"))
+            return SymBV(z3.UDiv(ta, tb))
+        if op == "mul":
+            if not self.decide(z3.BVMulNoOverflow(ta, tb, False)):
+                raise Unsupported("bit-vector product beyond the modelled width")
+            return SymBV(ta * tb)
+        if op in ("eq", "ne"):
+            return SymBool(ta == tb if op == "eq" else ta != tb)
+        if op in ("lt", "le", "gt", "ge"):
+            return SymBool({"lt": z3.ULT, "le": z3.ULE, "gt": z3.UGT, "ge": z3.UGE}[op](ta, tb))
+        return None
+
     def as_int(self, v):
         if isinstance(v, SymInt):
             return v.t
+        if isinstance(v, SymBV):
+            return z3.BV2Int(v.t)
         if isinstance(v, Conc) and isinstance(v.obj, int) and not isinstance(v.obj, bool):
             return z3.IntVal(v.obj)
         if isinstance(v, Conc) and isinstance(v.obj, bool):
@@ -920,6 +984,10 @@ class Interp:
                 return Conc(PYOPS[op](a.obj, b.obj))
             except Exception as e:  # noqa: BLE001
                 raise PyRaise(SymExc(type(e), (), origin=f"concrete {op}")) from None
+        if isinstance(a, SymBV) or isinstance(b, SymBV):
+            r = self.bv_binop(op, a, b)
+            if r is not None:
+                return r
         ia, ib = self.as_int(a), self.as_int(b)
         if ia is not None and ib is not None:
             return self.int_binop(op, ia, ib)
